@@ -204,6 +204,7 @@ TN_TYPES = [
     ("((int32, bool), string)", '((1, true), "s")'), ("(int32, (bool, string))", '(1, (true, "s"))'), ("(int32, bool, string)", '(1, true, "s")'), ("Bq[int32]", "Bq { v: 1 }"), ("Bq[bool]", "Bq { v: true }"),
     ("Bq[(int32, bool)]", "Bq { v: (1, true) }"), ("Bq[[int32; 2]]", "Bq { v: [1, 2] }"), ("Bq[Bq[int32]]", "Bq { v: Bq { v: 1 } }"), ("Pq", "Pq { a: 1 }"), ("Eq", "Eqa"), ("(int32) -> int32", "idq"), ("(int32) -> bool", "posq"),
     ("(int32, int32) -> int32", "addq"), ("((int32) -> int32, int32)", "(idq, 1)"), ("dyn Tq", "dq"),
+    ("((int32, int32), int32, int32)", "((1, 2), 3, 4)"), ("((int32, int32, int32), int32)", "((1, 2, 3), 4)"), ("(int32, (int32, int32), int32)", "(1, (2, 3), 4)"),
 ]
 
 
@@ -211,6 +212,7 @@ TN_FAMILIES = [
     ["[int32; 2]", "[int32; 3]", "[bool; 2]"], ["[[int32; 2]; 2]", "[[int32; 2]; 3]", "[[int32; 3]; 2]"], ["Vec[[int32; 2]]", "Vec[[int32; 3]]", "Vec[Vec[int32]]", "Vec[int32]"],
     ["Ref[int32]", "Ref[bool]", "Ref[[int32; 2]]", "Ref[Vec[int32]]"], ["(int32, bool)", "(bool, int32)", "(int32, bool, string)"], ["((int32, bool), string)", "(int32, (bool, string))", "(int32, bool, string)"],
     ["Bq[int32]", "Bq[bool]", "Bq[(int32, bool)]", "Bq[[int32; 2]]", "Bq[Bq[int32]]"], ["(int32) -> int32", "(int32) -> bool", "(int32, int32) -> int32"], ["int32", "bool", "string", "Pq", "Eq", "dyn Tq"],
+    ["((int32, int32), int32, int32)", "((int32, int32, int32), int32)", "(int32, (int32, int32), int32)"],
 ]
 
 
@@ -230,12 +232,13 @@ def typename_program(rng, n):
             other = rng.choice(TN_TYPES)
             shape = rng.choice(["pair", "pair", "triple", "nested", "vec", "ref", "arr"])
             first = rng.random() < 0.5
+            hk = rng.choice(["ref", "array", "vec", "ref", "array", "vec", None])  # both siblings get the same per-type helper
             for x_ in (a_, b_):
                 tx = next(t for t in TN_TYPES if t[0] == x_)
-                plan.append(((tx, other) if first else (other, tx), shape))
+                plan.append(((tx, other) if first else (other, tx), shape, hk, 0 if first else 1))
         else:
-            plan.append(((rng.choice(TN_TYPES), rng.choice(TN_TYPES)), rng.choice(["pair", "pair", "triple", "nested", "vec", "ref", "arr"])))
-    for i, (((t1, v1), (t2, v2)), shape) in enumerate(plan):
+            plan.append(((rng.choice(TN_TYPES), rng.choice(TN_TYPES)), rng.choice(["pair", "pair", "triple", "nested", "vec", "ref", "arr"]), rng.choice(["ref", "array", "vec", None, None, None]), 0))
+    for i, (((t1, v1), (t2, v2)), shape, hk, hpos) in enumerate(plan):
         if shape == "pair":
             ty, val = "(%s, %s)" % (t1, t2), "(%s, %s)" % (v1, v2)
         elif shape == "triple":
@@ -256,8 +259,10 @@ def typename_program(rng, n):
             calls.append("    let _ = string_println(int32_to_string(tn%d(%s)));" % (i, val))
         # the per-type runtime helpers (ref/ref_get/ref_set, array_get/array_set, vec_push/vec_get/vec_len) at this type:
         # their Go names are built from the type as well
-        if rng.random() < 0.5:
-            k_ = rng.choice(["ref", "array", "vec"])
+        if hk is not None:
+            k_ = hk
+            if hpos == 1:
+                t1, v1 = t2, v2
             if k_ == "ref":
                 calls.append("    let hr%d = ref(%s); let _ = ref_set(hr%d, ref_get(hr%d));" % (i, v1, i, i))
             elif k_ == "array":
